@@ -1,4 +1,7 @@
-// Package vsync: recording replacements for sync.Mutex / sync.WaitGroup (spike).
+// Package vsync holds recording replacements for sync.Mutex and sync.WaitGroup (engine E4 of the verification
+// harness). sync.Mutex/sync.WaitGroup in olareg.go, internal/store and internal/cache are redirected here by a
+// check-time source rewrite (never committed). The wrappers record who waits for which mutex and who holds it,
+// so that a monitor can find cycles in the wait-for graph, and can inject a delay right after an acquisition.
 package vsync
 
 import (
@@ -8,7 +11,6 @@ import (
 	"strconv"
 	"sync"
 	"sync/atomic"
-	"time"
 )
 
 func goid() int64 {
@@ -29,44 +31,89 @@ type Mutex struct {
 
 var (
 	regMu   sync.Mutex
-	waiting = map[int64]*Mutex{} // goid -> mutex it waits for
-	Events  atomic.Int64
+	waiting = map[int64]*Mutex{}  // goid -> mutex it waits for
+	waitAt  = map[int64]string{}  // goid -> site of the blocked Lock call
+	Events  atomic.Int64          // every instrumented event
+	Waits   atomic.Int64          // Lock calls that had to wait
+	sites   = map[string]int64{}  // acquisition site -> count
+	order   = map[string]bool{}   // "siteA -> siteB": B acquired while the goroutine held the lock taken at A
+	heldBy  = map[int64][]string{} // goid -> sites of locks currently held (stack)
 	// DelayAfterLock, if set, is called after each successful Lock with the caller site.
 	DelayAfterLock atomic.Value // func(site string)
 )
 
 func caller() string {
 	_, f, l, _ := runtime.Caller(2)
+	for i := len(f) - 1; i >= 0; i-- {
+		if f[i] == '/' {
+			// keep package dir + file
+			for j := i - 1; j >= 0; j-- {
+				if f[j] == '/' {
+					f = f[j+1:]
+					break
+				}
+			}
+			break
+		}
+	}
 	return fmt.Sprintf("%s:%d", f, l)
 }
 
 func (m *Mutex) Lock() {
 	g := goid()
 	site := caller()
-	regMu.Lock()
-	waiting[g] = m
-	regMu.Unlock()
-	m.m.Lock()
-	regMu.Lock()
-	delete(waiting, g)
-	regMu.Unlock()
+	if !m.m.TryLock() {
+		regMu.Lock()
+		waiting[g] = m
+		waitAt[g] = site
+		regMu.Unlock()
+		Waits.Add(1)
+		m.m.Lock()
+		regMu.Lock()
+		delete(waiting, g)
+		delete(waitAt, g)
+		regMu.Unlock()
+	}
 	m.holder.Store(g)
 	m.site.Store(site)
 	Events.Add(1)
+	regMu.Lock()
+	sites[site]++
+	for _, h := range heldBy[g] {
+		order[h+" -> "+site] = true
+	}
+	heldBy[g] = append(heldBy[g], site)
+	regMu.Unlock()
 	if f, ok := DelayAfterLock.Load().(func(string)); ok && f != nil {
 		f(site)
 	}
 }
 
 func (m *Mutex) Unlock() {
+	g := m.holder.Load()
+	s, _ := m.site.Load().(string)
 	m.holder.Store(0)
 	Events.Add(1)
+	regMu.Lock()
+	// the unlocking goroutine is normally the holder; remove the most recent matching site
+	h := heldBy[g]
+	for i := len(h) - 1; i >= 0; i-- {
+		if h[i] == s {
+			heldBy[g] = append(h[:i], h[i+1:]...)
+			break
+		}
+	}
+	if len(heldBy[g]) == 0 {
+		delete(heldBy, g)
+	}
+	regMu.Unlock()
 	m.m.Unlock()
 }
 
 func (m *Mutex) TryLock() bool {
 	if m.m.TryLock() {
 		m.holder.Store(goid())
+		m.site.Store(caller())
 		return true
 	}
 	return false
@@ -90,7 +137,7 @@ func FindCycle() string {
 				break
 			}
 			s, _ := m.site.Load().(string)
-			path += fmt.Sprintf("g%d waits for mutex held by g%d (acquired at %s); ", g, h, s)
+			path += fmt.Sprintf("goroutine %d blocked in Lock at %s waits for the mutex goroutine %d acquired at %s; ", g, waitAt[g], h, s)
 			if h == g0 {
 				return path
 			}
@@ -104,10 +151,39 @@ func FindCycle() string {
 	return ""
 }
 
+// Waiting lists the goroutines currently blocked on an instrumented mutex.
+func Waiting() []string {
+	regMu.Lock()
+	defer regMu.Unlock()
+	out := []string{}
+	for g, m := range waiting {
+		s, _ := m.site.Load().(string)
+		out = append(out, fmt.Sprintf("goroutine %d at %s waits for the mutex held by goroutine %d (acquired at %s)", g, waitAt[g], m.holder.Load(), s))
+	}
+	return out
+}
+
+// OrderEdges returns the lock-order edges seen so far ("site held -> site acquired").
+func OrderEdges() []string {
+	regMu.Lock()
+	defer regMu.Unlock()
+	out := []string{}
+	for e := range order {
+		out = append(out, e)
+	}
+	return out
+}
+
+// Reset forgets statistics (not the state of live mutexes).
+func Reset() {
+	regMu.Lock()
+	sites = map[string]int64{}
+	order = map[string]bool{}
+	regMu.Unlock()
+}
+
 type WaitGroup struct{ w sync.WaitGroup }
 
 func (w *WaitGroup) Add(n int) { Events.Add(1); w.w.Add(n) }
 func (w *WaitGroup) Done()     { Events.Add(1); w.w.Done() }
 func (w *WaitGroup) Wait()     { w.w.Wait(); Events.Add(1) }
-
-var _ = time.Now
